@@ -39,7 +39,13 @@ def gen(rng, prop, job):
 
 
 def make_jobs(prop, tier, seed):
-    return plug.std_jobs(prop, tier, seed, "m6", n_quick=16, per_quick=8, schedules=6)
+    jobs = plug.std_jobs(prop, tier, seed, "m6", n_quick=16, per_quick=8, schedules=6)
+    if tier == "thorough":
+        for j in range(24):
+            jobs.append({"kind": "pbound", "prop": prop, "seed": seed * 104729 + j, "k": 2, "budget": 1200})
+    else:
+        jobs.append({"kind": "pbound", "prop": prop, "seed": seed * 104729, "k": 1, "budget": 100})
+    return jobs
 
 
 def search_jobs(prop, tier, seed, corr_fail):
@@ -47,6 +53,8 @@ def search_jobs(prop, tier, seed, corr_fail):
 
 
 def run_job(job):
+    if job["kind"] == "pbound":
+        return plug.pbound_job(MODEL, plug.smallest_of(gen), job)
     return plug.std_job(MODEL, gen, job)
 
 
